@@ -22,6 +22,12 @@ Exhaustive enumeration (driver E1):
   * law "adapters": objects made by Call, FillCompute, Run and FillRequest (also with renamed
     methods) are elements: at every position of short good lists, in every form, judged by fold /
     regroup like every other element; SourceEl(flow) is a first element of a Source (two forms);
+  * law "seqkinds": a nested sequence of another kind is ONE element, judged by what it offers like
+    every argument: FillComputeSeq objects (fill and compute; pre-elements of every kind - callable,
+    Filter / Slice, an accumulator cast to FillInto or left as it is, a user object behind FillInto -,
+    with and without elements after the accumulator, one inside another) at every position of short good
+    lists and in every ordered pair, in every form, judged by fold (the standalone object filled with
+    the whole flow, then computed) and regroup; FillSeq objects (fill only) are ill-typed arguments;
   * law "runif": RunIf(select, e1..en) for every inner list over the vocabulary, every kind of
     selector (callable, class, Selector, list, tuple; selecting isolated values, runs of consecutive
     values, all, none), the inner elements given as arguments / as one Sequence / grouped, the RunIf
@@ -82,6 +88,10 @@ ASSUMPTIONS = [
     "they set / store static context, which no element of the vocabulary turns into data (that is "
     "UpdateContextFromStatic, C13); a Source always has a generating element (an element with data); the "
     "static context they set is not looked at here (C13)",
+    "a FillComputeSeq among the arguments is a fill/compute element: its stream transformation is the one "
+    "of the standalone FillComputeSeq object (fill the whole flow, then compute; C05 judges that object "
+    "itself); a FillSeq offers fill alone and cannot be converted (LenaTypeError); FillRequestSeq "
+    "objects are not in the alphabet (C16)",
     "a single tuple argument (Sequence((a, b))) is outside the alphabet: the docstring and the code "
     "disagree about it and the statement does not mention it; a tuple among several arguments is ill-typed",
 ]
@@ -105,7 +115,8 @@ def describe(tier):
             "(i, {'i': i}) pairs, m in %s; per list of length n = 0..%d all %s pipeline forms; ill-typed "
             "arguments %s at every position of good lists of length 0..2 over %s (of these %s may also be "
             "taken as callables); adapter objects %s at every position of good lists of length 0..%d and "
-            "in every ordered pair, all forms; RunIf(selector, inner list) for every inner list of length "
+            "in every ordered pair, all forms; nested sequences of other kinds %s likewise (pairs among "
+            "themselves), FillSeq objects among the ill-typed arguments; RunIf(selector, inner list) for every inner list of length "
             "0..%d over the factories, selectors %s (inner lists longer than 1: %s), inner forms %s, places "
             "%s, flows of m = %s values "
             "bare, with contexts and with None values; elements without data %s: for lists of length "
@@ -119,7 +130,7 @@ def describe(tier):
             % (N, len(VOCAB), VOCAB,
                {"n=%d" % n: list(_flow_lengths(tier, n)) for n in sorted(set((min(N, 3), N)))},
                N, [len(forms(n)) for n in range(N + 1)], [b for b in BAD], GOOD_FOR_BAD, OPEN,
-               ad.ACCEPTED_ORDER, 2 if tier == "thorough" else 1, _runif_maxlen(tier),
+               ad.ACCEPTED_ORDER, 2 if tier == "thorough" else 1, ad.NESTED_ORDER, _runif_maxlen(tier),
                ad.SELECTOR_ORDER, _runif_selectors(tier, 2), RUNIF_INNER_FORMS, RUNIF_PLACES,
                list(_runif_flow_lengths(tier)),
                nd.NODATA_ORDER, _nodata_full_len(tier), list(_NODATA_BASE),
@@ -689,6 +700,8 @@ BAD = {
 }
 # objects made by lena's adapters that are not elements of a Sequence (FillInto: fill_into only) ...
 BAD.update(ad.REJECTED)
+# ... and sequences that offer fill alone (FillSeq)
+BAD.update(ad.REJECTED_SEQS)
 # ... and SourceEl objects, callable without an argument: rejected by the constructor or taken as
 # callables (the statement leaves it open, R2) - but never a LenaTypeError later, during the run
 OPEN = sorted(ad.OPEN)
@@ -794,6 +807,20 @@ def _adapter_lists(tier, names):
                     yield tuple(good[:pos]) + (a,) + tuple(good[pos:])
     for a in names:
         for b in ad.ACCEPTED_ORDER:
+            yield (a, b)
+
+
+def _seqkind_lists(tier):
+    """Every nested sequence of another kind at every position of every good list of length 0..1
+    (thorough: 0..2), and every ordered pair of them."""
+    longest = 2 if tier == "thorough" else 1
+    for a in ad.NESTED_ORDER:
+        for k in range(longest + 1):
+            for good in itertools.product(GOOD_FOR_BAD, repeat=k):
+                for pos in range(k + 1):
+                    yield tuple(good[:pos]) + (a,) + tuple(good[pos:])
+    for a in ad.NESTED_ORDER:
+        for b in ad.NESTED_ORDER:
             yield (a, b)
 
 
@@ -924,7 +951,7 @@ def _run_runif_lists(res, tier, lists):
 
 def shards(tier):
     out = [{"kind": "short", "bound": "len<=1"}, {"kind": "illtyped", "bound": "len<=1"},
-           {"kind": "callables", "bound": "len<=1"},
+           {"kind": "callables", "bound": "len<=1"}, {"kind": "seqkinds", "bound": "len<=1"},
            {"kind": "runif", "n": 1, "prefix": [], "bound": "len<=1"}]
     if tier == "thorough":
         for a in ad.ACCEPTED_ORDER:
@@ -979,6 +1006,11 @@ def run_shard(p, tier):
         res.sample(case, 1)
     elif p["kind"] == "adapters":
         for specs in _adapter_lists(tier, p["names"]):
+            for fs in _flows(tier, len(specs)):
+                case = check_compose(res, specs, fs)
+            res.sample(case, 1)
+    elif p["kind"] == "seqkinds":
+        for specs in _seqkind_lists(tier):
             for fs in _flows(tier, len(specs)):
                 case = check_compose(res, specs, fs)
             res.sample(case, 1)
@@ -1043,10 +1075,11 @@ LEVEL_TEXT = ("bounded exhaustive exploration: every element list of length 0..3
               "element factories, every flow range(0..4) bare and with contexts, and for each list every "
               "bracketing into nested Sequences and every Source form is built from fresh objects and run on "
               "the real code; the flat form is compared with a hand-written materialised fold of the "
-              "elements' stream transformations, every other form with the flat form; 22 kinds of ill-typed "
-              "argument (among them FillInto and SourceEl adapter objects) are placed at every position of "
+              "elements' stream transformations, every other form with the flat form; 25 kinds of ill-typed "
+              "argument (among them FillInto and SourceEl adapter objects and FillSeq sequences) are placed at every position of "
               "Sequences, nested Sequences and Source tails; 11 objects made by the Call / FillCompute / Run "
-              "/ FillRequest adapters go through the same fold and regroup laws; RunIf with every inner "
+              "/ FillRequest adapters and 9 FillComputeSeq objects (nested sequences of another kind: one "
+              "fill/compute element each) go through the same fold and regroup laws; RunIf with every inner "
               "element list of length 0..2 (thorough: 0..3), 9 selectors (quick: 5 for inner lists longer "
               "than 1), 3 inner forms and 4 places is "
               "compared with its docstring applied by hand (each selected value alone through the inner "
